@@ -126,6 +126,31 @@ def block(stmts, ind):
     return ",\n".join(out)
 
 
+THR_INIT = ("if isinstance(threshold, str) and (not ':' in threshold):\n    self._threshold = float(threshold) * 3600.0\n"
+            "else:\n    self._threshold = self._parse_value(threshold)")
+REP_INIT = {"self._repeat = repeat": ".assignArg", "if repeat is True:\n    self._repeat = 86400": ".ifIsTrueAssign 86400"}
+
+
+def init_norm(cls):
+    """the statements of __init__ that deal with `repeat` / `threshold`, as tokens; anything else touching them is refused"""
+    fn = next(n for n in cls.body if isinstance(n, ast.FunctionDef) and n.name == "__init__")
+    rep, thr = [], None
+    for st in fn.body:
+        txt = ast.unparse(st)
+        names = {n.id for n in ast.walk(st) if isinstance(n, ast.Name)} | {n.attr for n in ast.walk(st) if isinstance(n, ast.Attribute)}
+        if txt in REP_INIT:
+            rep.append(REP_INIT[txt])
+        elif txt == THR_INIT:
+            thr = ".hoursStringTimes3600ElseParseValue"
+        elif "_repeat" in names and "_first_day" in names:
+            continue  # TimeOfDayCondition: the one-shot-already-past adjustment of first_day (modelled as TodCond.mk')
+        elif "repeat" in names or "_repeat" in names or "threshold" in names or "_threshold" in names:
+            raise Untranslatable("%s.__init__ statement on repeat/threshold: `%s`" % (cls.name, txt.splitlines()[0]))
+    if thr is None:
+        raise Untranslatable("%s.__init__: threshold normalisation not found" % cls.name)
+    return rep, thr
+
+
 def write_time_conds():
     path = os.path.join(vlib.REPO, "wntr", "network", "controls.py")
     try:
@@ -135,6 +160,7 @@ def write_time_conds():
             cls = next(n for n in tree.body if isinstance(n, ast.ClassDef) and n.name == cname)
             fn = next(n for n in cls.body if isinstance(n, ast.FunctionDef) and n.name == "evaluate")
             progs[cname] = block(fn.body, "  ")
+            progs[cname + ".init"] = init_norm(cls)
     except (StopIteration, SyntaxError, OSError) as e:
         raise vlib.BrokenTie("cannot locate the evaluate methods in wntr/network/controls.py: %r" % (e,))
     except Untranslatable as e:
@@ -142,8 +168,13 @@ def write_time_conds():
     text = ("-- GENERATED by harness/props/c04_translate.py from wntr/network/controls.py (Python ast of SimTimeCondition.evaluate and\n"
             "-- TimeOfDayCondition.evaluate). Do not edit.\nimport WntrModel.Model.TimeProg\nnamespace Wntr.Gen.TimeConds\nopen Wntr.TimeProg Wntr.Time\n\n"
             "/-- `SimTimeCondition.evaluate` -/\ndef simTimeEvaluate : List Stmt := [\n%s]\n\n"
-            "/-- `TimeOfDayCondition.evaluate` -/\ndef todEvaluate : List Stmt := [\n%s]\n\nend Wntr.Gen.TimeConds\n"
-            % (progs["SimTimeCondition"], progs["TimeOfDayCondition"]))
+            "/-- `TimeOfDayCondition.evaluate` -/\ndef todEvaluate : List Stmt := [\n%s]\n\n"
+            "/-- `SimTimeCondition.__init__`: the statements that set `self._repeat` -/\ndef simTimeRepeatInit : List RepStmt := [%s]\n"
+            "def simTimeThresholdInit : ThrShape := %s\n\n"
+            "/-- `TimeOfDayCondition.__init__` (its `repeat` is a flag) -/\ndef todRepeatInit : List RepStmt := [%s]\n"
+            "def todThresholdInit : ThrShape := %s\n\nend Wntr.Gen.TimeConds\n"
+            % (progs["SimTimeCondition"], progs["TimeOfDayCondition"], ", ".join(progs["SimTimeCondition.init"][0]), progs["SimTimeCondition.init"][1],
+               ", ".join(progs["TimeOfDayCondition.init"][0]), progs["TimeOfDayCondition.init"][1]))
     vlib.write_if_changed(os.path.join(vlib.GEN, "TimeConds.lean"), text)
     return progs
 
